@@ -137,7 +137,9 @@ def run_batches(exes, batches, base_seed, total_workers=NCPU):
     results = [None] * len(batches)
     weights = [max(1, b.get("weight", b["count"])) for b in batches]
     tot = float(sum(weights))
-    alloc = [max(1, int(round(total_workers * w / tot))) for w in weights]
+    # chunks per batch: three times the proportional share (the global WORKER_SLOTS semaphore bounds real concurrency, so that
+    # cores freed by batches that finish early are used by the chunks of the heavy ones)
+    alloc = [max(1, min(total_workers, int(round(3 * total_workers * w / tot)))) for w in weights]
     with cf.ThreadPoolExecutor(max_workers=len(batches)) as ex:
         futs = {}
         for i, b in enumerate(batches):
